@@ -23,6 +23,8 @@ if fs:
     print(r['stage'],'|',r['summary'][:150],'| min:',a)
 PY
 )
-  echo "$id rc=$rc $((t1-t0))s $s"
+  exp=$(python3 -c "import json;print(json.load(open('seeded/$id/meta.json')).get('expect','detect'))" 2>/dev/null)
+  verdict=OK; if [ "$exp" = silent ] && [ $rc -ne 0 ]; then verdict=UNEXPECTED; fi; if [ "$exp" != silent ] && [ $rc -ne 1 ]; then verdict=UNEXPECTED; fi
+  echo "$verdict $id expect=$exp rc=$rc $((t1-t0))s $s"
   rm -rf $OUT
 done
